@@ -6,6 +6,8 @@ R-C09-1  sibling nonce tables: the multiset of (label, j-shape, k-shape) of nonc
 R-C09-2  position: the prover adds blinding factor k to alpha component k through an order-preserving zip; the recoverer pushes component k
          at position k and moves the vector into ExtendedMask::assign
 R-C09-3  who gets a mask: Some(..) is pushed only when action != VerifyOnly and the statement carries a seed; every other path pushes None
+R-C09-4  = R-C17-3: the statement stores the caller's seed and commitments, the opening its value and blinding factors, the mask its
+         blinding vector, all unadjusted (recovery returns what was put in only if nothing in between rewrites it)
 """
 from bpsa.facts import callee_decl, callee_name
 from bpsa.normal import canon
@@ -32,7 +34,7 @@ def shape(t):
     return c
 
 
-def run(ctx):
+def _run(ctx):
     rep = ctx.rep
     p = ctx.fn('RangeProof::<P>::prove_with_rng', 'R-C09-1')
     g = weights.gate(ctx, 'R-C09-1')
@@ -173,3 +175,9 @@ def run(ctx):
                     rep.check(uses_seed, 'R-C09-3', key + '/from-seed', 'the pushed mask is computed from the seed-derived nonces', 'the pushed mask does not depend on the seed', ctx.where(v, e['bb']))
                 else:
                     rep.ok('R-C09-3', key, 'None pushed on a path without seed or in VerifyOnly mode (%s)' % [c for c, _ in conds[:2]], ctx.where(v, e['bb']))
+
+def run(ctx):
+    _run(ctx)
+    from . import C17
+    from .common import shared
+    shared(ctx, lambda c: C17.stored_fields(c, only={'RangeStatement::<P>::init': ['commitments', 'seed_nonce'], 'ExtendedMask::assign': ['blindings'], 'CommitmentOpening::new': ['v', 'r']}), 'R-C17-3', 'R-C09-4')
